@@ -35,7 +35,8 @@ fn walk(ctx: &mut Ctx, label: &str, x: &dyn Introspect, depth: u32, path: &str) 
             J::obj(vec![("path", J::s(path)), ("node", J::s(value.clone())), ("first_missing_index", J::i(n))]),
         );
     }
-    if len != n && !(len == savefile::MAX_CHILDREN && n >= savefile::MAX_CHILDREN) {
+    // the probe stops at PROBE_CAP children: beyond that only `len >= PROBE_CAP` can be demanded
+    if len != n && !(n == PROBE_CAP && len >= PROBE_CAP) {
         let is_map = value.contains("HashMap<") || value.contains("BTreeMap<") || value.contains("IndexMap<");
         let sig = if is_map && n == 2 * len { "C17:map-len-counts-entries-but-children-are-keys-and-values" } else { "C17:len-differs-from-indexable-children" };
         ctx.violation(
